@@ -109,6 +109,7 @@ static void handler_post(unsigned int must_set, int expect_cb_flag)
 {
     V_ASSERT(G.verdicts <= 1 && G.softdones <= 1, "C01: at most one verdict and one soft-done per step");
     V_ASSERT(G.msgs_after_retire == 0, "C01: silence after the verdict");
+    V_ASSERT(G.msgs_other == 0, "C07: an event of one client emits nothing that names another client");
     if (G.live) {
         V_ASSERT((req->flags.bits[0] & flags0) == flags0, "C01/C02: a data event never forgets earlier events (flags only grow)");
         V_ASSERT((req->flags.bits[0] & must_set) == must_set, "C02/C06: the event is recorded in the request's flags");
